@@ -283,6 +283,16 @@ let rec show_expr e =
 let show_pres (r : expr pres) = match r with
   | ROk (e, _) -> "ok " ^ show_expr e | RErr -> "err" | RUnsup -> "unsup" | RFuel -> "fuel"
 
+let optok_name = function
+  | OAdd -> "add" | OSub -> "sub" | OMul -> "mul" | ODiv -> "div" | OFloorDiv -> "floordiv" | OMod -> "mod"
+  | OPow -> "pow" | OTilde -> "tilde" | OEq -> "eq" | ONe -> "ne" | OLt -> "lt" | OLe -> "lteq" | OGt -> "gt"
+  | OGe -> "gteq" | OLParen -> "lparen" | ORParen -> "rparen" | OLBracket -> "lbracket" | ORBracket -> "rbracket"
+  | OLBrace -> "lbrace" | ORBrace -> "rbrace" | ODot -> "dot" | OComma -> "comma" | OColon -> "colon"
+  | OPipe -> "pipe" | OAssign -> "assign"
+let show_tok = function
+  | KName s -> "(name " ^ sstr "s" s ^ ")" | KInt z -> "(int " ^ zstr z ^ ")" | KStr s -> "(str " ^ sstr "s" s ^ ")"
+  | KFloat -> "float" | KOp o -> optok_name o
+
 let do_eval c e rho =
   let n = S (depth e) in
   let (s, sl) = run_spec c n e rho in
@@ -309,6 +319,10 @@ let () =
              | OutRun t -> "X " ^ py t)
         | [A "parse"; L toks] -> show_pres (parse_expr (List.map tok_of_sx toks))
         | [A "pprint"; L toks] -> show_pres (parse_print (List.map tok_of_sx toks))
+        | [A "unparse"; e] ->
+            let e = expr_of_sx e in
+            let ts = unparse e in
+            "W " ^ (if wf e then "1" else "0") ^ " | T (" ^ String.concat " " (List.map show_tok ts) ^ ") | P " ^ show_pres (parse_expr ts)
         | [A "gexp"; A c; e] -> "X " ^ py (run_gen_expr (cfg_of_atom c) (expr_of_sx e))
         | [A "fold"; A c; e] ->
             let c = cfg_of_atom c in let e = expr_of_sx e in
